@@ -1,6 +1,7 @@
 import KM.Model.GoLite
 import KM.Model.GoTypes
 import KM.Gen.GoSeal
+import KM.Gen.GoGate
 /-! # C09 — `unsealCA` as TRANSLATED from the current source (go2lean)
 
 The whole injection step is translated from /repo's working tree on every run (`KM/Gen/GoSeal.lean`): the mutex
@@ -126,5 +127,13 @@ example : KM.Gen.GoSeal.unsealCA exExt false true ['o', 'k'] =
       (none, [.lock, .loadSigners ['M'] ['E'], .publishKeys, .ready true, .unlock]) ∧
     KM.Gen.GoSeal.unsealCA exExt false false ['n', 'o'] = (some ['b', 'a', 'd'], [.lock, .unlock]) ∧
     (KM.Gen.GoSeal.unsealCA exExt true true ['o', 'k']).2 = [.lock, .unlock] := by decide
+
+/-- **the sealed gate most handlers start with, on the translated source** (`sendFailureToClientIfLocked`): it reads
+`state.Signer` under the mutex, and it stops the handler (`true`, one 500) exactly when no signer is loaded -/
+theorem c09_go_locked_gate (signerNil : Bool) :
+    KM.Gen.GoGate.sendFailureToClientIfLocked signerNil =
+      if signerNil = true then (true, [.lock, .unlock, .securityHeaders, .fail 500])
+      else (false, [.lock, .unlock, .securityHeaders]) := by
+  cases signerNil <;> rfl
 
 end KM.Seal
